@@ -32,6 +32,27 @@ CHECKS["C19"] = dict(
     note="Bounds: L <= 5 (8 thorough), 1-d and 2-column sequences; random sampling, callable kernels, position_velocity / gaussian kernels and non-increasing index lists are outside (listed as uncovered).",
     ref="4/C19")
 
+CHECKS["C06"] = dict(
+    text="Bounded symbolic model checking of the real NgramVectorizer (exact / subgrams, n <= 2 quick, 3 thorough, masking, pruning), SkipgramVectorizer (fixed radius, flat / harmonic, fixed dictionaries with unobserved tokens), EdgeListVectorizer (duplicate edges, joint_space, fixed row dictionary) and NgramVectorizer.__add__: with tokens / labels as unconstrained integers (a path fixes only their equality and order pattern) every cell of fit_transform and transform equals the count / summed kernel weight / summed edge value of the statement, and the sum of two unigram models equals a fit on the concatenated corpora (columns, training matrix up to column order, transform).",
+    note="Bounds: <= 5 symbols (7 thorough) over fit + transform corpora, <= 4 edges; Real arithmetic for weights. Known finding F19 (subgrams 1-gram columns) is reported as KNOWN-FINDING, every other cell of that mode is still checked.",
+    ref="4/C06")
+CHECKS["C16"] = dict(
+    text="Bounded symbolic model checking of LZCompressionVectorizer.fit_transform / transform with lempel_ziv_based_encode and counts_to_csr_data on strings of unconstrained code points: every row equals the counts of the string's own reference parse on the fitted columns (base dictionary, max_dict_size cap), row totals equal len(string) + base counts when the cap is not reached, transform keeps the fitted width and ignores unseen phrases, each batch row equals the singleton transform; with column hashing (hash = arbitrary function into [0, max_columns)) at most max_columns columns and unchanged row totals.",
+    note="Bounds: <= 5 characters (7 thorough) over fit + transform strings, max_dict_size 2..8, max_columns 2..3. murmurhash arithmetic is replaced by an arbitrary function (stub listed in the evidence).",
+    ref="4/C16")
+CHECKS["C01"] = dict(
+    text="Bounded symbolic model checking of fit followed by transform on an independent symbolic batch for Ngram, Skipgram, EdgeList, LZCompression and BytePairEncoding('matrix'): no exception escapes transform, the result has one row per item (fitted shape for EdgeList) and exactly the fitted number of columns, and every cell equals the count of the fitted column's label in the item - unseen tokens / labels / phrases / codes are ignored.",
+    note="Bounds as in C06 / C16 / C09. Histogram is covered under C20; KDE, Distribution, Wasserstein family and the co-occurrence family's transform are listed as uncovered in the evidence.",
+    ref="4/C01")
+CHECKS["C02"] = dict(
+    text="Symbolic differential of the real pipelines: for Ngram, Skipgram, EdgeList and BytePairEncoding (sequences) fit returns the estimator itself and fit(X).transform(X) equals fit_transform(X) cell by cell (code by code) for every corpus within the bound, including masking and pruning configurations.",
+    note="Bounds as in C06 / C09. Co-occurrence family, transformers and the optimal-transport classes are listed as uncovered until their harnesses are added.",
+    ref="4/C02")
+CHECKS["C12"] = dict(
+    text="Singleton differential on the real transform of Ngram, Skipgram and LZCompression: for an arbitrary fitted model and a symbolic batch, row i of transform(batch) equals transform([item i]) - which subsumes concatenation, permutation and duplication of batches.",
+    note="Bounds: batches of <= 2-3 items, <= 3 symbols per item. Other estimators listed as uncovered in the evidence.",
+    ref="4/C12")
+
 NOT_YET = {}
 
 
